@@ -24,6 +24,9 @@ fn grid() -> Vec<(f64, f64)> {
             }
         }
     }
+    // the same zero with the other sign bit: -0.0 as one or both ends (what scaling [0,0] by a negative number
+    // leaves behind); as intervals these are [0,0], [0,3], [-2,0], [0,inf), (-inf,0]
+    v.extend([(-0.0, -0.0), (0.0, -0.0), (-0.0, 0.0), (-0.0, 3.0), (-2.0, -0.0), (-0.0, f64::INFINITY), (f64::NEG_INFINITY, -0.0)]);
     v
 }
 
@@ -588,7 +591,7 @@ impl Property for C16 {
         }
     }
     fn rule(&self) -> &'static str {
-        "the first G cases enumerate the grid exhaustively: all 43 valid intervals with endpoints in {-inf,-3,-2,-1/2,0,1/2,2,3,+inf}; every ordered pair under + and * (binary and compound-assignment forms), every interval plus a scalar (bound+f64, f64+bound, +=), every interval under pow(0..8), under scaling by 10 non-zero scalars of both signs (0.5..2^20, 2^-20) from both sides and as *=, and as_integer_bound on intervals that contain an integer (fractional ends, +-1e-7 perturbations, half-infinite); each result must contain op(x,y) for all sample points (finite ends, interior, zero, +-2^20 on unbounded sides) with zero tolerance, without panicking. One remaining case in eight draws an interval with endpoints of extreme magnitude (m*2^e up to 2^212, +-2^63, 2^64, 1e19..1e300, infinite, degenerate) and either rounds it to integer endpoints (integers at both ends, 1 and 4096 inside, and the middle must be kept) or scales it from both sides by a non-zero dyadic number between 2^-300 and 2^72 (exact products; ends, zero and a far point on unbounded sides must be enclosed). The other cases alternate: evaluate_bound of a hostile function message of degree <= 4 over a box drawn from the grid (D) or random reals (R), some ids without bound, checked at 40 corner/face/interior points against the exact polynomial (zero tolerance in D, 2^-45 relative to the magnitude sum in R); and content_factor on functions whose coefficients are p/q (q<=60, lcm<=1e7), one in six with explicitly stored zero coefficients among them and one in twelve with nothing but stored zeros (the zero function: factor 1), against lcm(q)/gcd(p) within 1 ulp. Non-trivial = non-constant function / >= 2 coefficients; distinct = fingerprint of (function, box)."
+        "the first G cases enumerate the grid exhaustively: all 43 valid intervals with endpoints in {-inf,-3,-2,-1/2,0,1/2,2,3,+inf} plus 7 whose zero end(s) are -0.0; every ordered pair under + and * (binary and compound-assignment forms), every interval plus a scalar (bound+f64, f64+bound, +=), every interval under pow(0..8), under scaling by 10 non-zero scalars of both signs (0.5..2^20, 2^-20) from both sides and as *=, and as_integer_bound on intervals that contain an integer (fractional ends, +-1e-7 perturbations, half-infinite); each result must contain op(x,y) for all sample points (finite ends, interior, zero, +-2^20 on unbounded sides) with zero tolerance, without panicking. One remaining case in eight draws an interval with endpoints of extreme magnitude (m*2^e up to 2^212, +-2^63, 2^64, 1e19..1e300, infinite, degenerate) and either rounds it to integer endpoints (integers at both ends, 1 and 4096 inside, and the middle must be kept) or scales it from both sides by a non-zero dyadic number between 2^-300 and 2^72 (exact products; ends, zero and a far point on unbounded sides must be enclosed). The other cases alternate: evaluate_bound of a hostile function message of degree <= 4 over a box drawn from the grid (D) or random reals (R), some ids without bound, checked at 40 corner/face/interior points against the exact polynomial (zero tolerance in D, 2^-45 relative to the magnitude sum in R); and content_factor on functions whose coefficients are p/q (q<=60, lcm<=1e7), one in six with explicitly stored zero coefficients among them and one in twelve with nothing but stored zeros (the zero function: factor 1), against lcm(q)/gcd(p) within 1 ulp. Non-trivial = non-constant function / >= 2 coefficients; distinct = fingerprint of (function, box)."
     }
     fn assumptions(&self) -> Vec<&'static str> {
         vec!["scaling by 0 and magnitudes that overflow f64 are outside the statement", "as_integer_bound is only called on intervals that contain an integer"]
